@@ -17,7 +17,7 @@ import hashlib
 import time
 import z3
 
-RLIMIT = 40_000_000  # z3 resource limit per query (deterministic, load independent)
+RLIMIT = 15_000_000  # z3 resource limit per query (deterministic, load independent)
 
 
 class EngineAbort(BaseException):
@@ -339,6 +339,7 @@ class Engine:
                 elif r2 == "sat":
                     ob = Obligation(name, "refuted", model={"cvc5": why}, path=path, backend="cvc5",
                                     time=time.time() - t0, detail=detail, size=size, kind=kind)
+                    ob._z3model = None
                 else:
                     ob = Obligation(name, "undecided", path=path, time=time.time() - t0,
                                     detail=f"z3:{s.reason_unknown()} cvc5:{why}", size=size, kind=kind)
